@@ -63,7 +63,7 @@ def make_options(darsia, method, l1, mob, formulation="pressure", linear_solver=
         "verbose": False,
     }
     if linear_solver in ("amg", "cg"):
-        opt["linear_solver_options"] = {"atol": 1e-12, "rtol": 1e-12, "maxiter": 5000}
+        opt["linear_solver_options"] = {"atol": 1e-12, "rtol": 1e-12, "maxiter": int(__import__("os").environ.get("VERIF_DBG_MAXITER", "5000"))}
     if method == "bregman_adaptive":
         opt["bregman_update"] = lambda it: it % 2 == 0
     if extra:
